@@ -23,19 +23,19 @@ Section Frame.
     - exists (e' + 1). split; [lia|apply F].
   Qed.
 
-  Lemma frame_tasks : forall t e', In t (s_roster s) -> t_owner t = Some e' -> op_env o <> Some e' ->
-                                   In t (s_roster s').
+  Lemma frame_tasks : forall t e', In t (s_roster s) -> t_owner t = Some e' -> t_idok t = true ->
+                                   op_env o <> Some e' -> In t (s_roster s').
   Proof.
-    intros t e' Hin Ho Hne. destruct (frame_pick e' Hne) as [e [Hd [new [Hn [Hnd [Hm _]]]]]].
+    intros t e' Hin Ho Hk Hne. destruct (frame_pick e' Hne) as [e [Hd [new [Hn [Hnd [Hm _]]]]]].
     eapply emoves_keep; [exact Hm|apply in_or_app; left; exact Hin| |].
-    - apply is_locked_true. eauto.
+    - eapply locked_intro; eauto.
     - eapply owner_is_other; eauto.
   Qed.
 
   Lemma frame_touch : forall k, In k (ks u) -> forall t e', In t (s_roster s) -> t_id t = k ->
-                                t_owner t = Some e' -> op_env o = Some e'.
+                                t_owner t = Some e' -> t_idok t = true -> op_env o = Some e'.
   Proof.
-    intros k Hk t e' Hin Eid Ho.
+    intros k Hk t e' Hin Eid Ho Hok.
     destruct (option_eq_dec_N (op_env o) (Some e')) as [Heq|Hne]; [exact Heq|exfalso].
     destruct (frame_pick e' Hne) as [e [Hd [new [Hn [Hnd [Hm [_ Ht]]]]]]].
     apply Hd. symmetry. eapply (touched_ok e (s_roster s ++ new) k Hnd (Ht k Hk) t e'); auto.
@@ -43,11 +43,11 @@ Section Frame.
   Qed.
 
   Lemma frame_kills : forall k, In k (o_kills u) -> forall t e', In t (s_roster s) -> t_id t = k ->
-                                t_owner t = Some e' -> op_env o = Some e'.
+                                t_owner t = Some e' -> t_idok t = true -> op_env o = Some e'.
   Proof. intros k Hk. apply frame_touch. unfold ks. apply in_or_app. left. exact Hk. Qed.
 
   Lemma frame_cmds : forall k, In k (o_cmds u) -> forall t e', In t (s_roster s) -> t_id t = k ->
-                               t_owner t = Some e' -> op_env o = Some e'.
+                               t_owner t = Some e' -> t_idok t = true -> op_env o = Some e'.
   Proof. intros k Hk. apply frame_touch. unfold ks. apply in_or_app. right. exact Hk. Qed.
 
   Lemma frame_envs : forall x, In x (s_envs s) -> op_env o <> Some (e_id x) -> In x (s_envs s').
@@ -69,11 +69,11 @@ Proof.
   assert (Q : is_request o = true) by (destruct Ho as [->|[ids ->]]; reflexivity).
   assert (N : op_env o = None) by (destruct Ho as [->|[ids ->]]; reflexivity).
   repeat split.
-  - intros t Hin Hl. apply is_locked_true in Hl. destruct Hl as [e' Hl].
+  - intros t Hin Hl. apply is_locked_true in Hl. destruct Hl as [[e' Hl] Hok].
     eapply (frame_tasks s s' o u R W Q E); eauto. rewrite N. discriminate.
   - intros k Hk t Hin Eid. destruct (is_locked t) eqn:Hl; [exfalso|reflexivity].
-    apply is_locked_true in Hl. destruct Hl as [e' Hl].
-    pose proof (frame_kills s s' o u R W Q E k Hk t e' Hin Eid Hl) as X. rewrite N in X. discriminate.
+    apply is_locked_true in Hl. destruct Hl as [[e' Hl] Hok].
+    pose proof (frame_kills s s' o u R W Q E k Hk t e' Hin Eid Hl Hok) as X. rewrite N in X. discriminate.
   - destruct Ho as [->|[ids ->]]; cbn [step] in E.
     + destruct (cleanup (s_roster s)). injection E as <- <-. reflexivity.
     + destruct (kill_tasks ids (s_roster s)). injection E as <- <-. reflexivity.
@@ -193,7 +193,7 @@ Proof.
   intros [I S D] W Sr E.
   pose proof (step_spec s o s' u I W E) as [I' _].
   constructor; [exact I'| |].
-  - destruct o as [e missing|e c|e c|e ev fail|e force allow keep tfail| |ids|t];
+  - destruct o as [e missing|e c|e c|e ev fail|e force allow keep tfail| |ids|t|fids];
       cbn [step serial_op] in *; try discriminate.
     + destruct (N.eqb (c_fail c) 1).
       { unfold snap in E. injection E as <- <-. exact S. }
@@ -208,7 +208,8 @@ Proof.
     + destruct (cleanup (s_roster s)). injection E as <- <-. exact S.
     + destruct (kill_tasks ids (s_roster s)). injection E as <- <-. exact S.
     + injection E as <- <-. exact S.
-  - destruct o as [e missing|e c|e c|e ev fail|e force allow keep tfail| |ids|t];
+    + injection E as <- <-. exact S.
+  - destruct o as [e missing|e c|e c|e ev fail|e force allow keep tfail| |ids|t|fids];
       cbn [step serial_op wf_op] in *; try discriminate.
     + apply andb_true_iff in W. destruct W as [_ Wd]. apply nodupb_N in Wd.
       destruct (N.eqb (c_fail c) 1).
@@ -225,6 +226,7 @@ Proof.
     + apply destroy_good in E. destruct E as [_ [B _]]. eapply lmoves_dets; eauto.
     + destruct (cleanup (s_roster s)). injection E as <- <-. exact D.
     + destruct (kill_tasks ids (s_roster s)). injection E as <- <-. exact D.
+    + injection E as <- <-. exact D.
     + injection E as <- <-. exact D.
 Qed.
 
@@ -272,13 +274,13 @@ Proof.
     { injection E as <- <-. auto. }
     symmetry. apply existsb_exists. exists d. split; [exact Hd|apply memN_In, Ha]. }
   destruct Hrest as [H1 [H2 [H3 H4]]]. repeat split; auto.
-  - intros t Hin Hl. apply is_locked_true in Hl. destruct Hl as [e' Hl].
+  - intros t Hin Hl. apply is_locked_true in Hl. destruct Hl as [[e' Hl] Hok].
     eapply (frame_tasks s s' _ u R' W eq_refl E); eauto. cbn [op_env]. intro X. injection X as ->.
     cbn [wf_op] in W. apply andb_true_iff in W. destruct W as [W _]. apply negb_true_iff in W.
     apply usedb_false in W. destruct W as [_ [U2 _]]. apply (U2 t Hin). eapply inv_owner; eauto.
   - intros k Hk t Hin Eid. destruct (is_locked t) eqn:Hl; [exfalso|reflexivity].
-    apply is_locked_true in Hl. destruct Hl as [e' Hl].
-    pose proof (frame_kills s s' _ u R' W eq_refl E k Hk t e' Hin Eid Hl) as X. cbn [op_env] in X.
+    apply is_locked_true in Hl. destruct Hl as [[e' Hl] Hok].
+    pose proof (frame_kills s s' _ u R' W eq_refl E k Hk t e' Hin Eid Hl Hok) as X. cbn [op_env] in X.
     injection X as ->.
     cbn [wf_op] in W. apply andb_true_iff in W. destruct W as [W _]. apply negb_true_iff in W.
     apply usedb_false in W. destruct W as [_ [U2 _]]. apply (U2 t Hin). eapply inv_owner; eauto.
@@ -329,7 +331,7 @@ Lemma release_active e ids r id : active_in (fst (release e ids r)) id = active_
 Proof.
   unfold active_in, find_task. induction r as [|a r IH]; cbn [release]; [reflexivity|].
   destruct (release e ids r) as [r'' n]. cbn [fst] in IH.
-  destruct (mem_tid (t_id a) ids); [destruct (t_owner a) as [o|]; [destruct (N.eqb o e)|]|];
+  destruct (mem_tid (t_id a) ids); [destruct (t_owner a) as [o|]; [destruct (N.eqb o e || negb (t_idok a))|]|];
     cbn [fst find set_owner t_id t_active]; destruct (tid_eqb (t_id a) id); auto.
 Qed.
 
@@ -339,10 +341,10 @@ Proof.
   induction r as [|a r IH]; cbn [In release]; [tauto|].
   destruct (release e ids r) as [r'' n]. cbn [fst] in IH.
   intros [->|Hin].
-  - destruct (mem_tid (t_id t) ids); [destruct (t_owner t) as [o|]; [destruct (N.eqb o e)|]|]; cbn [fst];
+  - destruct (mem_tid (t_id t) ids); [destruct (t_owner t) as [o|]; [destruct (N.eqb o e || negb (t_idok t))|]|]; cbn [fst];
       eexists; (split; [left; reflexivity|split; reflexivity]).
   - destruct (IH Hin) as [t' [H1 H2]].
-    destruct (mem_tid (t_id a) ids); [destruct (t_owner a) as [o|]; [destruct (N.eqb o e)|]|]; cbn [fst];
+    destruct (mem_tid (t_id a) ids); [destruct (t_owner a) as [o|]; [destruct (N.eqb o e || negb (t_idok a))|]|]; cbn [fst];
       exists t'; (split; [right; exact H1|exact H2]).
 Qed.
 
@@ -397,8 +399,7 @@ Lemma teardown_ok_shape force e s :
     let hooktids := flat_map (group_tasks e) groups in
     let torelease := filter (fun id => negb (mem_tid id hooktids)) (bound_tids x) in
     let r1 := fst (release e torelease (s_roster s)) in
-    let lastmsg := match groups with [] => torelease
-                   | _ => last (map (fun g => filter (active_in r1) (group_tasks e g)) groups) [] end in
+    let lastmsg := hooktids in
     td_st (teardown force e s) = mkSt (remove_env e (s_envs s)) (fst (release e lastmsg r1)) (s_snaps s) /\
     td_hookr (teardown force e s) = Some r1.
 Proof.
@@ -415,10 +416,9 @@ Proof.
   split; reflexivity.
 Qed.
 
-(* a successful teardown in a state satisfying the invariant releases every task of the environment,
-   provided the DESTROY hook tasks are all named by the one release message that survives *)
+(* a successful teardown in a state satisfying the invariant releases every task of the environment *)
 Lemma teardown_releases force e s x :
-  inv s -> find_env e (s_envs s) = Some x -> hooks_releasable x (s_roster s) ->
+  inv s -> find_env e (s_envs s) = Some x ->
   td_ok (teardown force e s) = true ->
   s_envs (td_st (teardown force e s)) = remove_env e (s_envs s) /\
   s_snaps (td_st (teardown force e s)) = s_snaps s /\
@@ -427,14 +427,12 @@ Lemma teardown_releases force e s x :
                                              t_id t' = t_id t /\ t_active t' = t_active t) /\
   eown e (s_roster (td_st (teardown force e s))).
 Proof.
-  intros I Ef Hh Hok. destruct (teardown_ok_shape force e s Hok) as [x' [Ef' [Hst _]]].
+  intros I Ef Hok. destruct (teardown_ok_shape force e s Hok) as [x' [Ef' [Hst _]]].
   rewrite Ef in Ef'. injection Ef' as <-. cbv zeta in Hst. rewrite Hst. cbn [s_envs s_roster s_snaps].
   pose proof (find_env_id _ _ _ Ef) as Ex. apply find_env_In in Ef. destruct Ef as [Hx _].
-  set (groups := merged x) in *.
-  set (hooktids := flat_map (group_tasks e) groups) in *.
+  set (hooktids := flat_map (group_tasks e) (merged x)) in *.
   set (torelease := filter (fun id => negb (mem_tid id hooktids)) (bound_tids x)) in *.
   set (r1 := fst (release e torelease (s_roster s))) in *.
-  set (lastmsg := match groups with [] => torelease | _ => _ end) in *.
   split; [reflexivity|]. split; [reflexivity|]. split; [|split].
   - intros t' Hin. destruct (owner_is e t') eqn:Eo; [exfalso|reflexivity].
     apply owner_is_true in Eo.
@@ -445,26 +443,14 @@ Proof.
     assert (Hb : In (t_id t') (bound_tids x)).
     { eapply inv_bound; eauto. congruence. }
     destruct (mem_tid (t_id t') hooktids) eqn:Eh.
-    + (* a DESTROY hook task: named by the last message *)
-      assert (Hl : In (t_id t') lastmsg).
-      { apply mem_tid_In in Eh. unfold hooktids in Eh.
-        destruct (exists_last (l := groups)) as [pre [g Eg]].
-        { intro Hnil. rewrite Hnil in Eh. exact Eh. }
-        destruct (Hh pre g Eg) as [Hpre Hact]. rewrite Ex in Hpre, Hact.
-        unfold lastmsg. rewrite Eg. rewrite map_app. cbn [map]. rewrite last_snoc.
-        destruct (pre ++ [g]) eqn:Epg; [destruct pre; discriminate|]. rewrite <- Epg in *. clear Epg.
-        rewrite Eg, flat_map_app in Eh. apply in_app_or in Eh. destruct Eh as [Eh|Eh].
-        - apply in_flat_map in Eh. destruct Eh as [g' [Hg' Hin']]. rewrite (Hpre g' Hg') in Hin'. contradiction.
-        - cbn [flat_map] in Eh. rewrite app_nil_r in Eh. apply filter_In. split; [exact Eh|].
-          unfold r1. rewrite release_active. apply Hact, Eh. }
-      pose proof (release_unowns e lastmsg r1 t' Hin (proj2 (mem_tid_In _ _) Hl)) as X.
+    + pose proof (release_unowns e hooktids r1 t' Hin Eh) as X.
       apply owner_is_true in Eo. congruence.
     + assert (Ht : In (t_id t') torelease).
       { unfold torelease. apply filter_In. split; [exact Hb|]. rewrite Eh. reflexivity. }
       pose proof (release_unowns e torelease (s_roster s) t' H1 (proj2 (mem_tid_In _ _) Ht)) as X.
       apply owner_is_true in Eo. congruence.
   - intros t Hin. destruct (release_fwd e torelease (s_roster s) t Hin) as [t1 [A1 [A2 A3]]].
-    destruct (release_fwd e lastmsg r1 t1 A1) as [t2 [B1 [B2 B3]]].
+    destruct (release_fwd e hooktids r1 t1 A1) as [t2 [B1 [B2 B3]]].
     exists t2. split; [exact B1|]. split; congruence.
   - apply eown_release. apply eown_release. apply eown_inv, I.
 Qed.
@@ -492,19 +478,15 @@ Proof.
   assert (N1 : n1 = 0).
   { replace n1 with (snd (release e (filter (fun id => negb (mem_tid id (flat_map (group_tasks e) (merged x)))) (bound_tids x)) (s_roster s))) by (rewrite R1; reflexivity).
     apply release_ok; [apply eown_inv, I|]. intros id H. apply filter_In in H. apply Hbt, H. }
-  subst n1. cbn [N.eqb negb].
-  match goal with |- context [release e ?m r1] => destruct (release e m r1) as [r2 n2] eqn:R2; set (lastmsg := m) in * end.
+  subst n1. cbn [N.eqb negb]. cbv zeta.
+  set (lastmsg := flat_map (group_tasks e) (merged x)).
+  destruct (release e lastmsg r1) as [r2 n2] eqn:R2.
   assert (N2 : n2 = 0).
   { replace n2 with (snd (release e lastmsg r1)) by (rewrite R2; reflexivity).
     apply release_ok.
     - replace r1 with (fst (release e (filter (fun id => negb (mem_tid id (flat_map (group_tasks e) (merged x)))) (bound_tids x)) (s_roster s))) by (rewrite R1; reflexivity).
       apply eown_release, eown_inv, I.
-    - intros id H. unfold lastmsg in H. destruct (merged x) as [|g0 gs] eqn:Em.
-      + apply filter_In in H. apply Hbt, H.
-      + (* the last group's tasks *)
-        apply last_in_some in H. destruct H as [l [Hl Hid]]. apply in_map_iff in Hl.
-        destruct Hl as [g [<- _]]. apply filter_In in Hid. destruct Hid as [X _]. unfold group_tasks in X.
-        apply in_map_iff in X. destruct X as [ir [<- _]]. reflexivity. }
+    - intros id H. unfold lastmsg in H. rewrite <- Ex in H. apply hooktids_bound in H. congruence. }
   subst n2. reflexivity.
 Qed.
 
@@ -528,11 +510,11 @@ Qed.
 Lemma dtc_nothing force keep x s s' u :
   inv s ->
   (forall x1, find_env (e_id x) (s_envs s) = Some x1 ->
-              e_roles x1 = e_roles x /\ e_bound x1 = e_bound x /\ hooks_releasable x1 (s_roster s)) ->
+              e_roles x1 = e_roles x /\ e_bound x1 = e_bound x) ->
   dtc force keep x s = (s', u) -> o_rc u = 0 ->
   s_envs s' = remove_env (e_id x) (s_envs s) /\ s_snaps s' = s_snaps s /\
   (forall t, In t (s_roster s') -> owner_is (e_id x) t = false) /\ o_pend u = 0 /\
-  (keep = false -> forall t, In t (s_roster s) -> t_owner t = Some (e_id x) -> t_active t = true ->
+  (keep = false -> forall t, In t (s_roster s) -> t_owner t = Some (e_id x) ->
                    In (t_id t) (o_kills u)).
 Proof.
   intros I Hx. unfold dtc. set (e := e_id x) in *.
@@ -551,8 +533,8 @@ Proof.
   2:{ intros H Hrc. injection H as <- <-. discriminate. }
   destruct (T eq_refl) as [f [Hok Hst]].
   destruct (teardown_ok_shape f e s Hok) as [x1 [Ef _]].
-  destruct (Hx x1 Ef) as [X1 [X2 Hh]].
-  destruct (teardown_releases f e s x1 I Ef Hh Hok) as [R1 [R2 [R3 [R4 R5]]]].
+  destruct (Hx x1 Ef) as [X1 X2].
+  destruct (teardown_releases f e s x1 I Ef Hok) as [R1 [R2 [R3 [R4 R5]]]].
   rewrite <- Hst in *.
   assert (Pend : match find_env e (s_envs (td_st t)) with Some x' => e_pend x' | None => 0 end = 0).
   { rewrite R1, find_env_remove. reflexivity. }
@@ -565,18 +547,18 @@ Proof.
   - intros t' Hin. apply R3. destruct (bound_tids x).
     + apply cleanup_sub. rewrite Ek. exact Hin.
     + eapply kill_sub. rewrite Ek. exact Hin.
-  - intros _ t0 Hin Ho Ha.
+  - intros _ t0 Hin Ho.
     pose proof (find_env_id _ _ _ Ef) as Ex1. apply find_env_In in Ef. destruct Ef as [Hx1 _].
     assert (Hb : In (t_id t0) (bound_tids x)).
     { rewrite (bound_tids_shape x x1) by (auto; congruence). eapply inv_bound; eauto. congruence. }
     destruct (R4 t0 Hin) as [t' [T1 [T2 T3]]].
     assert (Hl : is_locked t' = false).
-    { apply is_locked_false. destruct (R5 t' T1) as [H|H]; [|exact H|].
+    { apply is_locked_false. destruct (R5 t' T1) as [H|H]; [|left; exact H|].
       - rewrite T2. apply bound_tids_fst in Hb. exact Hb.
       - pose proof (R3 t' T1) as X. apply owner_is_true in H. congruence. }
     destruct (bound_tids x) as [|i ids] eqn:Eb; [contradiction|].
     rewrite <- T2. replace k with (snd (kill_tasks (i :: ids) (s_roster (td_st t)))) by (rewrite Ek; reflexivity).
-    apply kill_complete; auto; [|congruence]. apply mem_tid_In. rewrite T2. exact Hb.
+    apply kill_complete; auto. apply mem_tid_In. rewrite T2. exact Hb.
 Qed.
 
 Lemma transition_same x dst fail r r' tg ok :
@@ -691,29 +673,25 @@ Qed.
 Lemma st_eta s : s = mkSt (s_envs s) (s_roster s) (s_snaps s).
 Proof. destruct s; reflexivity. Qed.
 
-(* C06, destroy: partial theorem *)
+(* C06, destroy: full theorem *)
 Lemma destroy_nothing_behind s e force allow keep tfail s' u x :
-  reachable s -> find_env e (s_envs s) = Some x -> hooks_releasable x (s_roster s) ->
+  reachable s -> find_env e (s_envs s) = Some x ->
   step s (ODestroy e force allow keep tfail) = (s', u) -> o_rc u = 0 ->
   nothing_left e s' /\ s_envs s' = remove_env e (s_envs s) /\ o_pend u = 0 /\
-  (keep = false -> forall t, In t (s_roster s) -> t_owner t = Some e -> t_active t = true ->
-                   In (t_id t) (o_kills u)).
+  (keep = false -> forall t, In t (s_roster s) -> t_owner t = Some e -> In (t_id t) (o_kills u)).
 Proof.
-  intros R Ef Hh E Hrc. cbn [step] in E. pose proof (reachable_inv s R) as I.
+  intros R Ef E Hrc. cbn [step] in E. pose proof (reachable_inv s R) as I.
   pose proof (find_env_id _ _ _ Ef) as Ex.
   destruct (destroy_shape e force allow keep tfail s s' u x Ef E Hrc)
     as [s1 [f [k [o2 [K [Hsame [G [Ed [Hrc2 [Hp [Hk Hkeep]]]]]]]]]]].
   pose proof (good_inv e s s1 K I G) as I1. destruct G as [_ [Gl [Gs _]]].
   assert (Hx : forall x1, find_env (e_id x) (s_envs s1) = Some x1 ->
-               e_roles x1 = e_roles x /\ e_bound x1 = e_bound x /\ hooks_releasable x1 (s_roster s1)).
+               e_roles x1 = e_roles x /\ e_bound x1 = e_bound x).
   { intros x1 E1. pose proof (find_env_id _ _ _ E1) as Ex1. apply find_env_In in E1. destruct E1 as [H1 _].
     destruct (lmoves_origin e _ _ Gl x1 H1) as [x0 [A1 [A2 [A3 [A4 _]]]]].
     assert (x0 = x).
     { apply (nodup_map_inj e_id (s_envs s)); [apply I|exact A1|apply (find_env_In _ _ _ Ef)|congruence]. }
-    subst x0. split; [auto|]. split; [auto|].
-    intros pre g Em. rewrite <- (merged_shape x x1) in Em by auto.
-    destruct (Hh pre g Em) as [B1 B2]. rewrite <- A2. split; [exact B1|].
-    intros id Hid. rewrite (active_in_same _ _ id Hsame). apply B2, Hid. }
+    subst x0. split; auto. }
   destruct (dtc_nothing f k x s1 s' o2 I1 Hx Ed Hrc2) as [D1 [D2 [D3 [D4 D5]]]].
   rewrite Ex in *. rewrite (lmoves_remove e _ _ Gl) in D1.
   repeat split; auto.
@@ -721,9 +699,16 @@ Proof.
   - intros y Hy. rewrite D1 in Hy. unfold remove_env in Hy. apply filter_In in Hy. destruct Hy as [_ Hy].
     apply negb_true_iff in Hy. apply N.eqb_neq, Hy.
   - congruence.
-  - intros Hkf t Hin Ho Ha. apply Hk.
+  - intros Hkf t Hin Ho. apply Hk.
     destruct (same_In (s_roster s) (s_roster s1) t (eq_sym Hsame) Hin) as [t1 [T1 [T2 [T3 T4]]]].
     rewrite <- T2. apply (D5 (Hkeep Hkf) t1 T1); congruence.
+Qed.
+
+Lemma destroy_leaves_nothing_holds : destroy_leaves_nothing.
+Proof.
+  intros s e force allow keep tfail s' u R Hl E Hrc. unfold env_listed in Hl.
+  destruct (find_env e (s_envs s)) as [x|] eqn:Ef; [|discriminate].
+  apply (destroy_nothing_behind s e force allow keep tfail s' u x R Ef E Hrc).
 Qed.
 
 (* C06: success is reported only when the environment is gone *)
@@ -794,33 +779,6 @@ Proof.
   destruct H as [<-|H]; [left; reflexivity|right; eapply IH; eauto].
 Qed.
 
-Lemma group_tasks_nil e g : (forall ir, In ir g -> is_hook_task (snd ir) = false) -> group_tasks e g = [].
-Proof.
-  unfold group_tasks. induction g as [|ir g IH]; intro H; cbn [filter map]; [reflexivity|].
-  rewrite (H ir (or_introl eq_refl)). apply IH. intros ir' Hi. apply H. right. exact Hi.
-Qed.
-
-Lemma merged_in x g ir : In g (merged x) -> In ir g -> In ir (iroles (e_roles x)).
-Proof.
-  unfold merged. intros Hg Hir. apply in_map_iff in Hg. destruct Hg as [w [<- _]].
-  unfold merged_at in Hir. destruct (hooks_at x true w) as [|p l] eqn:E.
-  - unfold hooks_at in Hir. apply filter_In in Hir. apply Hir.
-  - rewrite <- E in Hir. unfold hooks_at in Hir. apply filter_In in Hir. apply Hir.
-Qed.
-
-Lemma no_hooks_releasable x r :
-  forallb (fun ro => negb (is_hook_task ro)) (e_roles x) = true -> hooks_releasable x r.
-Proof.
-  intros H pre g Em. rewrite forallb_forall in H.
-  assert (G : forall g', In g' (merged x) -> group_tasks (e_id x) g' = []).
-  { intros g' Hg. apply group_tasks_nil. intros ir Hir.
-    pose proof (merged_in x g' ir Hg Hir) as Hi. apply in_iroles_role in Hi.
-    apply negb_true_iff. apply H, Hi. }
-  split.
-  - intros g' Hg'. apply G. rewrite Em. apply in_or_app. left. exact Hg'.
-  - intros id Hid. rewrite G in Hid; [contradiction|]. rewrite Em. apply in_or_app. right. left. reflexivity.
-Qed.
-
 Lemma find_env_none_intro e l : (forall y, In y l -> e_id y <> e) -> find_env e l = None.
 Proof.
   intro H. unfold find_env. induction l as [|y l IH]; cbn [find]; [reflexivity|].
@@ -840,45 +798,43 @@ Qed.
 
 Lemma create_tail_nothing x sm cmds l s' u :
   inv sm -> find_env (e_id x) (s_envs sm) = Some x -> e_state x <> ES_DONE ->
-  forallb (fun ro => negb (is_hook_task ro)) (e_roles x) = true ->
   create_tail x sm cmds l = (s', u) ->
   nothing_left (e_id x) s' /\ o_rc u = 1 /\ o_launch u = l /\
-  (forall t, In t (s_roster sm) -> t_owner t = Some (e_id x) -> t_active t = true -> In (t_id t) (o_kills u)).
+  (forall t, In t (s_roster sm) -> t_owner t = Some (e_id x) -> In (t_id t) (o_kills u)).
 Proof.
-  intros I Ef Hd Hn. unfold create_tail. set (e := e_id x) in *.
+  intros I Ef Hd. unfold create_tail. set (e := e_id x) in *.
   pose proof (teardown_succeeds true e sm x I Ef Hd (or_introl eq_refl)) as Hok.
-  pose proof (no_hooks_releasable x (s_roster sm) Hn) as Hh.
-  destruct (teardown_releases true e sm x I Ef Hh Hok) as [R1 [R2 [R3 [R4 R5]]]].
+  destruct (teardown_releases true e sm x I Ef Hok) as [R1 [R2 [R3 [R4 R5]]]].
   set (t := teardown true e sm) in *.
   destruct (kill_tasks (bound_tids x) (s_roster (td_st t))) as [r' k] eqn:Ek.
   intro H; injection H as <- <-. cbn [o_rc o_launch o_kills]. split; [|split; [reflexivity|split; [reflexivity|]]].
   - unfold with_roster. rewrite R1. apply nothing_left_removed.
     intros t' Hin. apply R3. eapply kill_sub. rewrite Ek. exact Hin.
-  - intros t0 Hin Ho Ha.
+  - intros t0 Hin Ho.
     assert (Hb : In (t_id t0) (bound_tids x)).
     { apply find_env_In in Ef. destruct Ef as [Hx _]. eapply inv_bound; eauto. }
     destruct (R4 t0 Hin) as [t' [T1 [T2 T3]]].
     assert (Hl : is_locked t' = false).
-    { apply is_locked_false. destruct (R5 t' T1) as [H|H]; [|exact H|].
+    { apply is_locked_false. destruct (R5 t' T1) as [H|H]; [|left; exact H|].
       - rewrite T2. apply bound_tids_fst in Hb. exact Hb.
       - pose proof (R3 t' T1) as X. apply owner_is_true in H. congruence. }
     rewrite <- T2. replace k with (snd (kill_tasks (bound_tids x) (s_roster (td_st t)))) by (rewrite Ek; reflexivity).
-    apply kill_complete; auto; [|congruence]. apply mem_tid_In. rewrite T2. exact Hb.
+    apply kill_complete; auto. apply mem_tid_In. rewrite T2. exact Hb.
 Qed.
 
 Lemma finish_nothing e c s s' u ad :
-  inv s -> assocN e (s_snaps s) = Some ad -> no_hook_tasks c = true -> none_staging c = true ->
+  inv s -> assocN e (s_snaps s) = Some ad ->
   finish e c s = (s', u) -> o_rc u = 1 ->
   nothing_left e s' /\ launched_killed e c u.
 Proof.
-  intros I Ea Hnh Hns. unfold finish. rewrite Ea. pose proof (assocN_In _ _ _ Ea) as Hp.
+  intros I Ea. unfold finish. rewrite Ea. pose proof (assocN_In _ _ _ Ea) as Hp.
   assert (Rfree : forall t, In t (s_roster s) -> fst (t_id t) <> e).
   { intros t Ht. apply (inv_snap_r s I (e, ad) t Hp Ht). }
   assert (Efree : forall y, In y (s_envs s) -> e_id y <> e).
   { intros y Hy. apply (inv_snap_e s I (e, ad) y Hp Hy). }
   set (s0 := mkSt (s_envs s) (s_roster s) (remove_snap e (s_snaps s))).
   assert (N0 : nothing_left e s0 /\ launched_killed e c (out_rc 1)).
-  { split; [|intros ir _ []]. repeat split; cbn [s0 s_envs s_roster]; auto.
+  { split; [|intros id []]. repeat split; cbn [s0 s_envs s_roster]; auto.
     - apply find_env_none_intro, Efree.
     - intros t Ht. destruct (owner_is e t) eqn:Eo; [|reflexivity]. apply owner_is_true in Eo.
       exfalso. apply (Rfree t Ht). eapply inv_owner; eauto. }
@@ -895,7 +851,7 @@ Proof.
     destruct (create_tail_nothing xe _ [] [] s' u Im) as [A [_ [B _]]]; auto.
     - cbn [with_envs s_envs s0]. apply find_env_app_new; auto.
     - cbn. discriminate.
-    - split; [exact A|]. intros ir _ Hl. rewrite B in Hl. contradiction. }
+    - split; [exact A|]. intros id Hl. rewrite B in Hl. contradiction. }
   set (x1 := set_bound x0).
   set (new := map (launch_task e) (task_iroles x1)).
   assert (Hids : map t_id new = bound_tids x1).
@@ -906,19 +862,11 @@ Proof.
   { intros x X1 X2 X3. eapply inv_launch; eauto. intros t Ht. split.
     - unfold new in Ht. apply in_map_iff in Ht. destruct Ht as [ir [<- _]]. reflexivity.
     - rewrite (bound_tids_shape x x1) by (auto). rewrite <- Hids. apply in_map, Ht. }
-  (* a launched task that reported running is in the roster, owned and active *)
-  assert (Hrun : forall ir, In ir (iroles (c_roles c)) ->
-                 In (tid_of e (fst ir)) (map (fun ir0 => tid_of e (fst ir0)) (task_iroles x1)) ->
-                 r_launch (snd ir) <> 1 ->
-                 exists t, In t new /\ t_id t = tid_of e (fst ir) /\ t_owner t = Some e /\ t_active t = true).
-  { intros ir Hir Hl Hne. apply in_map_iff in Hl. destruct Hl as [ir' [E' Hir']].
-    unfold tid_of in E'. injection E' as E'.
-    assert (ir' = ir).
-    { apply (nodup_map_inj fst (iroles (c_roles c))); auto; [apply index_from_nodup|].
-      unfold task_iroles in Hir'. apply filter_In in Hir'. apply Hir'. }
-    subst ir'. exists (launch_task e ir). split; [apply in_map, Hir'|]. repeat split.
-    cbn [launch_task t_active]. unfold none_staging in Hns. rewrite forallb_forall in Hns.
-    specialize (Hns _ (in_iroles_role _ _ Hir)). apply N.leb_le in Hns. apply N.eqb_eq. lia. }
+  (* every launched task is in the roster, owned by the new environment *)
+  assert (Hrun : forall id, In id (map (fun ir0 => tid_of e (fst ir0)) (task_iroles x1)) ->
+                 exists t, In t new /\ t_id t = id /\ t_owner t = Some e).
+  { intros id Hl. apply in_map_iff in Hl. destruct Hl as [ir [<- Hir]].
+    exists (launch_task e ir). split; [apply in_map, Hir|]. split; reflexivity. }
   assert (Tail : forall xe rm cmds, e_id xe = e -> e_roles xe = c_roles c -> e_bound xe = true -> e_state xe = ES_ERROR ->
                  inv (mkSt (s_envs s0 ++ [xe]) rm (s_snaps s0)) ->
                  map own3 rm = map own3 (s_roster s ++ new) ->
@@ -929,9 +877,8 @@ Proof.
     destruct (create_tail_nothing xe _ cmds (map (fun ir => tid_of e (fst ir)) (task_iroles x1)) s' u Im) as [A [_ [B C]]]; auto.
     - cbn [s_envs s0]. rewrite X1. apply find_env_app_new; auto.
     - rewrite X4. discriminate.
-    - rewrite X2. exact Hnh.
-    - rewrite X1 in *. split; [exact A|]. intros ir Hir Hl Hne. rewrite B in Hl.
-      destruct (Hrun ir Hir Hl Hne) as [t [T1 [T2 [T3 T4]]]].
+    - rewrite X1 in *. split; [exact A|]. intros id Hl. rewrite B in Hl.
+      destruct (Hrun id Hl) as [t [T1 [T2 T3]]].
       destruct (same_In (s_roster s ++ new) rm t (eq_sym Hsame)) as [t' [U1 [U2 [U3 U4]]]].
       { apply in_or_app. right. exact T1. }
       rewrite <- T2, <- U2. apply C; cbn [s_roster]; congruence. }
@@ -955,15 +902,15 @@ Proof.
 Qed.
 
 Lemma create_nothing_behind s e c s' u :
-  reachable s -> wf_op s (OCreate e c) = true -> no_hook_tasks c = true -> none_staging c = true ->
+  reachable s -> wf_op s (OCreate e c) = true ->
   step s (OCreate e c) = (s', u) -> o_rc u = 1 ->
   nothing_left e s' /\ launched_killed e c u.
 Proof.
-  intros R W Hnh Hns E Hrc. pose proof (reachable_inv s R) as I.
+  intros R W E Hrc. pose proof (reachable_inv s R) as I.
   cbn [wf_op] in W. apply andb_true_iff in W. destruct W as [W _]. apply negb_true_iff in W.
   pose proof (usedb_false s e W) as [U1 [U2 U3]].
   cbn [step] in E. destruct (N.eqb (c_fail c) 1).
-  { unfold snap in E. injection E as <- <-. split; [|intros ir _ []]. repeat split; auto.
+  { unfold snap in E. injection E as <- <-. split; [|intros id []]. repeat split; auto.
     - apply find_env_none_intro, U1.
     - intros t Ht. destruct (owner_is e t) eqn:Eo; [|reflexivity]. apply owner_is_true in Eo.
       exfalso. apply (U2 t Ht). eapply inv_owner; eauto. }
@@ -974,67 +921,60 @@ Proof.
   { unfold snap in Es. destruct (cleanup (s_roster s)). injection Es as <- _. cbn [s_snaps assocN].
     rewrite N.eqb_refl. reflexivity. }
   cbn [out_seq o_rc] in Hrc.
-  destruct (finish_nothing e c s1 s2 o2 _ I1 Ea Hnh Hns Ef Hrc) as [A B]. split; [exact A|].
-  intros ir Hir Hl Hne. cbn [out_seq o_launch o_kills] in *. apply in_or_app. right.
+  destruct (finish_nothing e c s1 s2 o2 _ I1 Ea Ef Hrc) as [A B]. split; [exact A|].
+  intros id Hl. cbn [out_seq o_launch o_kills] in *. apply in_or_app. right.
   apply B; auto. apply in_app_or in Hl. destruct Hl as [Hl|Hl]; [|exact Hl].
   unfold snap in Es. destruct (cleanup (s_roster s)). injection Es as _ <-. contradiction.
 Qed.
 
 Lemma finish_nothing_behind s e c s' u :
   reachable s -> assocN e (s_snaps s) <> None ->
-  no_hook_tasks c = true -> none_staging c = true ->
   step s (OFinish e c) = (s', u) -> o_rc u = 1 ->
   nothing_left e s' /\ launched_killed e c u.
 Proof.
-  intros R Ha Hnh Hns E Hrc. pose proof (reachable_inv s R) as I.
+  intros R Ha E Hrc. pose proof (reachable_inv s R) as I.
   destruct (assocN e (s_snaps s)) as [ad|] eqn:Ea; [|contradiction].
   cbn [step] in E. eapply finish_nothing; eauto.
 Qed.
 
-(* ---------------- the refutations *)
+Lemma failed_creation_leaves_nothing_holds : failed_creation_leaves_nothing.
+Proof. intros s e c s' u R W E Hrc. eapply create_nothing_behind; eauto. Qed.
+
+(* ---------------- the witnesses of the former refutations, now regression examples *)
 Definition mw_spec : cspec :=
   mkSpec [0] 0 [mkRole RPlain true 0 false; mkRole (RHookTask false (-5)%Z) false 0 false;
                 mkRole (RHookTask false 5%Z) false 0 false].
 Definition mw_ops : list op := [OCreate 0 mw_spec].
 
-Lemma multiweight_leak :
+Lemma multiweight_released :
   valid_hist st0 mw_ops = true /\
   let s := run st0 mw_ops in
   env_listed 0 s = true /\
   let '(s', u) := step s (ODestroy 0 false false false false) in
-  o_rc u = 0 /\ owns_some 0 (s_roster s') = true /\ env_listed 0 s' = false /\
-  owns_some 0 (s_roster (fst (step s' OCleanup))) = true.
+  o_rc u = 0 /\ owns_some 0 (s_roster s') = false /\ env_listed 0 s' = false /\
+  s_roster s' = [] /\ length (o_kills u) = 3%nat.
 Proof. vm_compute. repeat split; reflexivity. Qed.
-
-Lemma destroy_leaves_nothing_refuted : ~ destroy_leaves_nothing.
-Proof.
-  intro H. destruct multiweight_leak as [V L]. cbv zeta in L. destruct L as [Hl L].
-  destruct (step (run st0 mw_ops) (ODestroy 0 false false false false)) as [s' u] eqn:E.
-  destruct L as [Hrc [Ho _]].
-  destruct (H _ 0 false false false false s' u (ex_intro _ mw_ops (conj V eq_refl)) Hl E Hrc) as [_ [Hn _]].
-  unfold owns_some in Ho. apply existsb_exists in Ho. destruct Ho as [t [Ht Hot]].
-  rewrite (Hn t Ht) in Hot. discriminate.
-Qed.
 
 Definition stg_spec : cspec :=
   mkSpec [2] 0 [mkRole RPlain true 0 false; mkRole RPlain true 1 false; mkRole RPlain false 2 false].
 
-Lemma staging_dropped :
+Lemma staging_killed :
   wf_op st0 (OCreate 0 stg_spec) = true /\
   let '(s', u) := step st0 (OCreate 0 stg_spec) in
-  o_rc u = 1 /\ mem_tid (0, 2) (o_launch u) = true /\ mem_tid (0, 2) (o_kills u) = false /\
-  existsb (fun t => tid_eqb (t_id t) (0, 2)) (s_roster s') = false.
+  o_rc u = 1 /\ mem_tid (0, 2) (o_launch u) = true /\ mem_tid (0, 2) (o_kills u) = true /\
+  s_roster s' = [].
 Proof. vm_compute. repeat split; reflexivity. Qed.
 
-Lemma failed_creation_leaves_nothing_refuted : ~ failed_creation_leaves_nothing.
-Proof.
-  intro H. destruct staging_dropped as [W L].
-  destruct (step st0 (OCreate 0 stg_spec)) as [s' u] eqn:E. destruct L as [Hrc [Hl [Hk _]]].
-  destruct (H st0 0 stg_spec s' u (ex_intro _ [] (conj eq_refl eq_refl)) W E Hrc) as [_ Hlk].
-  assert (X : In (tid_of 0 (fst (2, mkRole RPlain false 2 false))) (o_kills u)).
-  { apply Hlk.
-    - cbn. right. right. left. reflexivity.
-    - apply mem_tid_In, Hl.
-    - cbn. discriminate. }
-  apply mem_tid_In in X. change (mem_tid (0, 2) (o_kills u) = true) in X. rewrite Hk in X. discriminate.
-Qed.
+(* an executor failure before a forced keep-tasks destroy: the failed task is not locked any more but
+   still has its parent; the teardown clears it *)
+Definition xf_spec : cspec :=
+  mkSpec [0] 0 [mkRole RPlain true 0 false; mkRole RPlain false 0 false].
+
+Lemma failed_executor_released :
+  let ops := [OCreate 0 xf_spec; OFail [(0, 1)]] in
+  valid_hist st0 ops = true /\
+  let s := run st0 ops in
+  existsb (fun t => owner_is 0 t && negb (is_locked t)) (s_roster s) = true /\
+  let '(s', u) := step s (ODestroy 0 true false true false) in
+  o_rc u = 0 /\ owns_some 0 (s_roster s') = false /\ length (s_roster s') = 2%nat /\ o_kills u = [].
+Proof. vm_compute. repeat split; reflexivity. Qed.
